@@ -78,3 +78,50 @@ theorem evalRhs_ok (phase fabric : Int) (n : ℕ) (mp : MParams) (env : RhsEnv) 
         exact ⟨ad, fd, rfl, h.symm⟩
 
 end ModelR
+
+namespace ModelR
+open List
+
+theorem flatMap_toList_length (A : List Mat3) : (A.flatMap mat3ToList).length = 9 * A.length := by
+  induction A with
+  | nil => rfl
+  | cons a as ih => simp [ih]; omega
+
+theorem chunk9_flat (A : List Mat3) (rest : List ℝ) :
+    chunk9 A.length (A.flatMap mat3ToList ++ rest) = A := by
+  induction A with
+  | nil => rfl
+  | cons a as ih =>
+    simp only [List.length_cons, chunk9, List.flatMap_cons, List.append_assoc]
+    have h1 : (mat3ToList a ++ (as.flatMap mat3ToList ++ rest)).take 9 = mat3ToList a := by
+      rw [List.take_append_of_le_length (by simp)]
+      exact List.take_of_length_le (by simp)
+    have h2 : (mat3ToList a ++ (as.flatMap mat3ToList ++ rest)).drop 9 = as.flatMap mat3ToList ++ rest := by
+      rw [List.drop_append_of_le_length (by simp)]
+      simp [List.drop_of_length_le]
+    rw [h1, h2, mat3OfList_toList, ih]
+
+/-- packing then unpacking is the identity (for a texture with `n` grains) -/
+theorem unpackY_packY (n : ℕ) (F : Mat3) (t : Tex) (hA : t.A.length = n) (hf : t.f.length = n) :
+    unpackY n (packY F t) = (F, t) := by
+  have hflat := flatMap_toList_length t.A
+  have e1 : (packY F t).take 9 = mat3ToList F := packY_take9 F t
+  have e2 : (packY F t).drop 9 = t.A.flatMap mat3ToList ++ t.f := by
+    simp only [packY, List.append_assoc]
+    rw [List.drop_append_of_le_length (by simp)]
+    simp [List.drop_of_length_le]
+  have e3 : ((packY F t).drop 9).take (9 * n) = t.A.flatMap mat3ToList := by
+    rw [e2, List.take_append_of_le_length (by rw [hflat, hA])]
+    exact List.take_of_length_le (by rw [hflat, hA])
+  have e4 : (packY F t).drop (9 * n + 9) = t.f := by
+    have : 9 * n + 9 = 9 + 9 * n := by omega
+    rw [this, ← List.drop_drop, e2, List.drop_append_of_le_length (by rw [hflat, hA])]
+    simp [List.drop_of_length_le, hflat, hA]
+  have e5 : chunk9 n (t.A.flatMap mat3ToList) = t.A := by
+    have := chunk9_flat t.A []
+    rw [List.append_nil, hA] at this
+    exact this
+  unfold unpackY
+  rw [e1, e3, e4, e5, mat3OfList_toList, List.take_of_length_le (by omega)]
+
+end ModelR
